@@ -681,6 +681,12 @@ func (se *SpecEnv) callSpec(c *ast.CallExpr) Value {
 		}
 		se.fr.v.assume("reg(v) denotes the unique residue r < q with r*R = v (mod q); existence uses gcd(R,q)=1 (q is odd: checked)")
 		return r
+	case "sqrt":
+		return F.App("ring.sqrt", SInt, targ(0))
+	case "hasroot":
+		return F.App("ring.hasroot", SBool, targ(0))
+	case "lexlargest":
+		return F.App("ring.lexlargest", SBool, targ(0))
 	case "iszero": // ring predicate (uninterpreted over the Z-lifting)
 		return se.fr.v.ringIsZero(targ(0))
 	case "inv":
